@@ -78,6 +78,20 @@ type SessSpec struct {
 	Rollbacks  map[int]uint64        `json:"rollbacks,omitempty"` // vb -> R: the first stream request of vb is answered ROLLBACK(R)
 	Failover   map[int][][2]uint64   `json:"failover,omitempty"`  // vb -> failover log (uuid, seq), newest first
 	CBFaults   []CBFault             `json:"cb_faults,omitempty"` // faults on checkpoint xattr writes (couchbase back end)
+	Membership string                `json:"membership,omitempty"` // "" static 1/1 | dynamic (fed through PUT /membership/info)
+	FirstInfo  [2]int                `json:"first_info,omitempty"` // member,total sent while starting (dynamic)
+	RebalanceDelayMs int             `json:"rebalance_delay_ms,omitempty"`
+	RollbackMitigation bool          `json:"rollback_mitigation,omitempty"`
+	HealthCheck bool                 `json:"health_check,omitempty"`
+}
+
+// Read is one scrape of GET /states/offset.
+type Read struct {
+	TCall, TRet int64
+	OK          bool
+	Body        string
+	Seq         map[int]uint64
+	Snap        map[int][2]uint64
 }
 
 type CBFault struct {
@@ -134,6 +148,9 @@ type Trace struct {
 	BarrierTimeouts int
 	Cfg *config.Dcp
 	Checks []*StoreCheck
+	Reads  []*Read
+	APIPort int
+	readMu sync.Mutex
 }
 
 // StoreCheck is one barrier comparison point (C05/C13): after a barrier an explicit Commit() is issued and
@@ -191,6 +208,45 @@ type session struct {
 	failSet map[int]bool
 	tr      *Trace
 	rng     *rand.Rand
+	stopReaders []chan struct{}
+	readerWG    sync.WaitGroup
+}
+
+// readOffsets scrapes GET /states/offset and records call/return ticks and the per-vBucket positions.
+func (s *session) readOffsets() {
+	rd := &Read{Seq: map[int]uint64{}, Snap: map[int][2]uint64{}}
+	rd.TCall = evlog.Tick()
+	code, body, err := hx.HTTPDo("GET", fmt.Sprintf("http://127.0.0.1:%d/states/offset", s.tr.APIPort), "", 5*time.Second)
+	rd.TRet = evlog.Tick()
+	rd.Body = body
+	if err == nil && code == 200 && strings.HasPrefix(body, "{") {
+		var m map[string]struct {
+			SnapshotMarker *struct {
+				StartSeqNo uint64
+				EndSeqNo   uint64
+			}
+			StartSeqNo uint64
+			EndSeqNo   uint64
+			VbUUID     uint64
+			SeqNo      uint64
+		}
+		if json.Unmarshal([]byte(body), &m) == nil {
+			rd.OK = true
+			for k, v := range m {
+				var vb int
+				fmt.Sscan(k, &vb)
+				rd.Seq[vb] = v.SeqNo
+				ss, se := v.StartSeqNo, v.EndSeqNo
+				if v.SnapshotMarker != nil {
+					ss, se = v.SnapshotMarker.StartSeqNo, v.SnapshotMarker.EndSeqNo
+				}
+				rd.Snap[vb] = [2]uint64{ss, se}
+			}
+		}
+	}
+	s.tr.readMu.Lock()
+	s.tr.Reads = append(s.tr.Reads, rd)
+	s.tr.readMu.Unlock()
 }
 
 func (s *session) ackOne(d *hx.Delivered) {
@@ -332,6 +388,26 @@ func RunSession(spec *SessSpec) *Trace {
 			env.Sim.PutDoc(fmt.Sprintf("_connector:cbgo:%s:checkpoint:%d", cfg.Dcp.Group.Name, vb), []byte("{}"), map[string]json.RawMessage{"cbgo": json.RawMessage(doc)})
 		}
 	}
+	if spec.API || spec.Membership == "dynamic" {
+		tr.APIPort = hx.FreePort()
+		cfg.API.Disabled = false
+		cfg.API.Port = tr.APIPort
+		cfg.Debug = true
+	}
+	if spec.Membership == "dynamic" {
+		cfg.Dcp.Group.Membership.Type = "dynamic"
+	}
+	if spec.RebalanceDelayMs > 0 {
+		cfg.Dcp.Group.Membership.RebalanceDelay = time.Duration(spec.RebalanceDelayMs) * time.Millisecond
+	}
+	if spec.RollbackMitigation {
+		cfg.RollbackMitigation.Disabled = false
+	}
+	if spec.HealthCheck {
+		cfg.HealthCheck.Disabled = false
+		cfg.HealthCheck.Interval = 20 * time.Millisecond
+		cfg.HealthCheck.Timeout = 2 * time.Second
+	}
 	tr.Cfg = cfg
 	cons := &hx.Consumer{Log: env.Log}
 	s.cons = cons
@@ -393,6 +469,22 @@ func RunSession(spec *SessSpec) *Trace {
 		}
 		cfg.Checkpoint.Timeout = 250 * time.Millisecond
 	}
+	if spec.Membership == "dynamic" {
+		opts.WhileStarting = func() {
+			fi := spec.FirstInfo
+			if fi[1] == 0 {
+				fi = [2]int{1, 1}
+			}
+			for i := 0; i < 2000; i++ {
+				code, _, err := hx.HTTPDo("PUT", fmt.Sprintf("http://127.0.0.1:%d/membership/info", tr.APIPort), fmt.Sprintf(`{"memberNumber":%d,"totalMembers":%d}`, fi[0], fi[1]), time.Second)
+				if err == nil && code == 200 {
+					env.Log.Add(evlog.Rec{K: "ctl.membership", VB: -1, A: uint64(fi[0]), B: uint64(fi[1])})
+					return
+				}
+				time.Sleep(2 * time.Millisecond)
+			}
+		}
+	}
 	full, err := env.StartFull(cfg, opts)
 	if err != nil {
 		tr.StartErr = err.Error()
@@ -438,6 +530,33 @@ func RunSession(spec *SessSpec) *Trace {
 			for _, d := range pick {
 				s.ackOne(d)
 			}
+		case "ackpar": // acknowledge everything pending, one goroutine per vBucket (per vBucket one at a time)
+			s.pmu.Lock()
+			byVB := map[uint16][]*hx.Delivered{}
+			for _, d := range s.pending {
+				byVB[d.VB] = append(byVB[d.VB], d)
+			}
+			s.pending = nil
+			s.pmu.Unlock()
+			var wg sync.WaitGroup
+			for _, ds := range byVB {
+				ds := ds
+				if st.Sel == "random" {
+					s.rng.Shuffle(len(ds), func(i, j int) { ds[i], ds[j] = ds[j], ds[i] })
+				} else if st.Sel == "newest" {
+					for i, j := 0, len(ds)-1; i < j; i, j = i+1, j-1 {
+						ds[i], ds[j] = ds[j], ds[i]
+					}
+				}
+				wg.Add(1)
+				go func() {
+					defer wg.Done()
+					for _, d := range ds {
+						s.ackOne(d)
+					}
+				}()
+			}
+			wg.Wait()
 		case "reack": // acknowledge again an event that was already acknowledged (repetition / late ack)
 			s.pmu.Lock()
 			var d *hx.Delivered
@@ -458,6 +577,21 @@ func RunSession(spec *SessSpec) *Trace {
 			time.Sleep(time.Duration(st.Ms) * time.Millisecond)
 		case "end":
 			env.Sim.EndStreams(uint16(st.VB), st.St)
+		case "failover": // the vBucket gets a new history branch (new vbUUID at the current high seqno)
+			hi := env.Sim.High(uint16(st.VB))
+			old := env.Sim.FailoverCopy(uint16(st.VB))
+			env.Sim.SetFailover(uint16(st.VB), append([]cbsim.Failover{{UUID: 0xf00000 + uint64(st.N), Seq: hi}}, old...))
+		case "waitreopen":
+			vbw := st.VB
+			want := st.N
+			hx.WaitFor(8*time.Second, func() bool {
+				n := 0
+				for _, r := range env.Log.Filter(func(r evlog.Rec) bool { return r.K == "sim.rx" && r.Op == cbsim.OpDcpStreamReq && r.VB == vbw }) {
+					_ = r
+					n++
+				}
+				return n >= want
+			})
 		case "dropdcp":
 			env.Sim.DropDCPConns()
 		case "holdsave":
@@ -489,6 +623,39 @@ func RunSession(spec *SessSpec) *Trace {
 			ck.TIdleRet = evlog.Tick()
 			ck.IdleWrites = s.writeCount() - w0
 			tr.Checks = append(tr.Checks, ck)
+		case "read":
+			s.readOffsets()
+		case "readers":
+			stop := make(chan struct{})
+			s.stopReaders = append(s.stopReaders, stop)
+			for i := 0; i < st.N; i++ {
+				s.readerWG.Add(1)
+				go func() {
+					defer s.readerWG.Done()
+					for {
+						select {
+						case <-stop:
+							return
+						default:
+						}
+						s.readOffsets()
+						time.Sleep(200 * time.Microsecond)
+					}
+				}()
+			}
+		case "stopreaders":
+			for _, c := range s.stopReaders {
+				close(c)
+			}
+			s.stopReaders = nil
+			s.readerWG.Wait()
+		case "membership":
+			env.Log.Add(evlog.Rec{K: "ctl.membership.call", VB: -1, A: uint64(st.N), B: uint64(st.VB)})
+			hx.HTTPDo("PUT", fmt.Sprintf("http://127.0.0.1:%d/membership/info", tr.APIPort), fmt.Sprintf(`{"memberNumber":%d,"totalMembers":%d}`, st.N, st.VB), 5*time.Second)
+			env.Log.Add(evlog.Rec{K: "ctl.membership", VB: -1, A: uint64(st.N), B: uint64(st.VB)})
+		case "waitrebalance":
+			want := st.N
+			hx.WaitFor(10*time.Second, func() bool { return env.Log.Count("eh.ARE") >= want })
 		case "checknocommit":
 			// reference save = the last explicit Commit() that was called; everything settled before that
 			// call must be in the store once it has returned (no further Commit() is issued here)
@@ -512,6 +679,10 @@ func RunSession(spec *SessSpec) *Trace {
 			break
 		}
 	}
+	for _, c := range s.stopReaders {
+		close(c)
+	}
+	s.readerWG.Wait()
 	if !closed && !spec.NoFinalClose {
 		tr.CloseOK = full.Close(20 * time.Second)
 	}
